@@ -4,7 +4,7 @@ From CNV Require Import Base.Prelude Base.Str Spec.Runs Spec.Regions Model.Acces
   Proofs.Access Proofs.AccessJoin Gen.AccessDefaults
   Model.IvRow Spec.Cover Model.AccessPipe Proofs.AccessPipe
   Model.AccessText Proofs.AccessPipeLib Proofs.AccessPipeline Proofs.AccessGenome
-  Proofs.AccessGenomeTotal Proofs.AccessText.
+  Proofs.AccessGenomeTotal Proofs.AccessText Gen.FnAccess Proofs.FnAccess.
 
 (* For every FASTA record, whatever the line width -- EVERY cut of the sequence into
    lines, blank lines included (a blank line is skipped since fix 784419a; before it,
@@ -364,3 +364,26 @@ Theorem C13_source_drop_noncanonical :
   ["def drop_noncanonical_contigs(region_tups):";
    "    return (tup for tup in region_tups if is_canonical_contig_name(tup[0]))"]%string.
 Proof. reflexivity. Qed.
+
+(* ---- loop tie: join_regions' inner loop, translated ONE ITERATION at a time from the Python source
+   (Gen/FnAccess.v fn_join_step, regenerated on every run): the carried (prev_start, prev_end) after the
+   iteration and the regions it yields *)
+Theorem C13_source_join_step : forall chrom g ps pe s e,
+  fn_join_step chrom g ps pe s e
+  = if (s - pe) <? g then (ps, e, []) else (s, e, [(chrom, ps, pe)]).
+Proof. exact source_join_step. Qed.
+
+(* ... and the generator built from that step (first row taken by next(coords), the step folded over
+   the rest, the carried pair yielded last) IS the model's join_regions on every chromosome on which
+   the assertion `gap > 0` never fails (the model answers None exactly there) *)
+Theorem C13_source_join : forall chrom g rows r,
+  join_regions g rows = Some r -> source_join chrom g rows = tag chrom r.
+Proof. exact source_join_regions. Qed.
+
+(* the guard is met by every table whose consecutive rows leave a positive gap *)
+Theorem C13_source_join_guard : forall g rest ps pe,
+  (forall i, (i < length rest)%nat ->
+     let prev_end := match i with O => pe | S j => snd (nth j rest (0, 0)) end in
+     fst (nth i rest (0, 0)) - prev_end > 0) ->
+  exists r, join_from g ps pe rest = Some r.
+Proof. exact join_from_some. Qed.
